@@ -3,6 +3,8 @@
 package json
 
 import (
+	"fmt"
+	"os"
 	"sync"
 	"sync/atomic"
 )
@@ -28,6 +30,25 @@ var VerifJSONHook func(run int, proc string, wid int, kind string, n int)
 
 // VerifJSONDelay, when set, is called by a worker after parsing a batch (seeded scheduling noise).
 var VerifJSONDelay func(wid int, firstLine int)
+
+// With VERIF_JSON_TRACE=<file> in the environment the events are appended to that file, one `kind,run,worker,n` line
+// per event (used to log whole-query runs of the real binary).
+func init() {
+	path := os.Getenv("VERIF_JSON_TRACE")
+	if path == "" {
+		return
+	}
+	f, err := os.OpenFile(path, os.O_CREATE|os.O_WRONLY|os.O_APPEND, 0o644)
+	if err != nil {
+		return
+	}
+	var mu sync.Mutex
+	VerifJSONHook = func(run int, proc string, wid int, kind string, n int) {
+		mu.Lock()
+		fmt.Fprintf(f, "%s,%d,%d,%d\n", kind, run, wid, n)
+		mu.Unlock()
+	}
+}
 
 var verifRunCounter int64
 var verifWorkerCounter int64
